@@ -284,3 +284,40 @@ func vrefHeadersSize(hs []Header) int {
 	}
 	return n
 }
+
+// H5: the topic of a message is given either by the Writer or by the message, never by both and never by neither:
+// a call that violates this is rejected up front (nothing is sent), whatever position the offending message has and
+// also when the message names the very topic the Writer is configured with.
+func VH_C08_TopicValidation(n int) {
+	vhConcreteClock(true)
+	tr := &vhCountingTransport{}
+	writerTopic := ""
+	if vhBool("writer_has_a_topic") {
+		writerTopic = "t"
+	}
+	w := &Writer{Addr: TCP("vh:9092"), Topic: writerTopic, BatchSize: 10, BatchTimeout: time.Millisecond, Transport: tr, RequiredAcks: RequireAll}
+	msgs := make([]Message, n)
+	bad := false
+	for i := range msgs {
+		msgs[i] = Message{Value: []byte{byte(i)}}
+		switch vhChoose("message_topic", 3) {
+		case 1:
+			msgs[i].Topic = "t" // the Writer's own topic, if it has one
+		case 2:
+			msgs[i].Topic = "u"
+		}
+		if (writerTopic != "") == (msgs[i].Topic != "") {
+			bad = true
+		}
+	}
+	err := w.WriteMessages(context.Background(), msgs...)
+	if bad {
+		vhAssert(err != nil, "topic-given-twice-or-not-at-all-is-rejected")
+		vhAssert(tr.produced == 0, "nothing-is-sent-for-a-rejected-call")
+		vhReach("c08-topic-rejected")
+	} else {
+		vhAssert(err == nil, "well-formed-call-is-written")
+		vhReach("c08-topic-accepted")
+	}
+	w.Close()
+}
